@@ -34,9 +34,10 @@ func ValidateAggregateAndProof(ctx context.Context, signedAgg *phase0.SignedAggr
 	// [IGNORE] aggregate.data.slot is within the last ATTESTATION_PROPAGATION_SLOT_RANGE
 	// slots (with a MAXIMUM_GOSSIP_CLOCK_DISPARITY allowance) --
 	// i.e. aggregate.data.slot + ATTESTATION_PROPAGATION_SLOT_RANGE >= current_slot >= aggregate.data.slot
-	// overflow check
+	// Modified in Deneb (EIP-7045): aggregate.data.slot <= current_slot,
+	// and the epoch of aggregate.data.slot is either the current or previous epoch.
 	att := &signedAgg.Message.Aggregate
-	if err := CheckSlotSpan(aggVal.SlotAfter, att.Data.Slot, ATTESTATION_PROPAGATION_SLOT_RANGE); err != nil {
+	if err := CheckAttestationSlot(spec, aggVal.SlotAfter, att.Data.Slot); err != nil {
 		return nil, GossipValidatorResult{IGNORE, fmt.Errorf("aggregate attestation not within slot range: %v", err)}
 	}
 
